@@ -283,6 +283,63 @@ theorem byron_skip_flag_only_skips (P : Prims D) (mr : List Bytes → D) (wfOK :
 
 /-! ### The full statement and what is not part of the theorem -/
 
+/-! ### The other VerifyConfig toggles -/
+
+/-- **Regenerated.** In the source as it stands, the decode-time body check of EVERY block
+    constructor (Byron main, Byron EBB, Shelley … Conway, Dijkstra) is guarded by
+    `!cfg.SkipBodyHashValidation` and by nothing else; that field is a declared toggle. -/
+theorem gate_is_body_flag :
+    GV.Gen.BodyGate.gate.map (·.1) =
+      ["byron", "byronebb", "shelley", "allegra", "mary", "alonzo", "babbage", "conway", "dijkstra"] ∧
+    (∀ p ∈ GV.Gen.BodyGate.gate, p.2 = "SkipBodyHashValidation") ∧
+    "SkipBodyHashValidation" ∈ GV.Gen.BodyGate.verifyConfigBools := by decide
+
+/-- **Regenerated.** `ByronMainBlock.ValidateBodyProof` reaches the tx, delegation and update
+    comparisons as top-level statements and has no config-dependent early return: the stricter
+    `EnableByronSscProofHashValidation` mode cannot bypass them. -/
+theorem byron_checks_unconditional :
+    GV.Gen.BodyGate.byronEarlyReturns = 0 ∧
+    "tx" ∈ GV.Gen.BodyGate.byronUnconditionalChecks ∧
+    "delegation" ∈ GV.Gen.BodyGate.byronUnconditionalChecks ∧
+    "update" ∈ GV.Gen.BodyGate.byronUnconditionalChecks := by decide
+
+/-- **other_flags_irrelevant.** For every era, two configs that agree on
+    `SkipBodyHashValidation` skip — or do not skip — the body check alike, whatever their other
+    toggles say (present and future ones: the quantifier is over arbitrary flag lists). -/
+theorem other_flags_irrelevant (era : String) (hera : era ∈ GV.Gen.BodyGate.gate.map (·.1))
+    (c c' : Cfg) (h : c.get "SkipBodyHashValidation" = c'.get "SkipBodyHashValidation") :
+    skipped era c = skipped era c' := by
+  have hg : gateOf era = "SkipBodyHashValidation" := by
+    have := gate_is_body_flag.1
+    rw [this] at hera
+    simp only [List.mem_cons, List.not_mem_nil, or_false] at hera
+    rcases hera with rfl | rfl | rfl | rfl | rfl | rfl | rfl | rfl | rfl <;> decide
+  simp only [skipped, hg, h]
+
+/-- hence the verdicts of the segwit, Dijkstra, EBB and Byron decoders do not depend on them -/
+theorem verdict_independent_of_other_flags (P : Prims D) (E : Era) (wf : List Bytes → Bool)
+    (expOf : Bytes → Option D) (segs : List Bytes) (era : String)
+    (hera : era ∈ GV.Gen.BodyGate.gate.map (·.1)) (c c' : Cfg)
+    (h : c.get "SkipBodyHashValidation" = c'.get "SkipBodyHashValidation") :
+    decodeSegwit P E wf expOf (skipped era c) segs = decodeSegwit P E wf expOf (skipped era c') segs ∧
+    decodeDijkstra P 2 wf expOf (skipped era c) segs = decodeDijkstra P 2 wf expOf (skipped era c') segs ∧
+    decodeEbb P wf expOf (skipped era c) segs = decodeEbb P wf expOf (skipped era c') segs := by
+  rw [other_flags_irrelevant era hera c c' h]
+  exact ⟨rfl, rfl, rfl⟩
+
+theorem byron_verdict_independent_of_other_flags (P : Prims D) (mr : List Bytes → D) (wfOK : Bool)
+    (expected : Option (ByronProof D)) (sscOk : Bool) (b : ByronBody) (c c' : Cfg)
+    (h : c.get "SkipBodyHashValidation" = c'.get "SkipBodyHashValidation") :
+    decodeByron P mr wfOK expected sscOk (skipped "byron" c) b =
+      decodeByron P mr wfOK expected sscOk (skipped "byron" c') b := by
+  rw [other_flags_irrelevant "byron" (by decide) c c' h]
+
+/-- the harness' config: the mask never touches `SkipBodyHashValidation` -/
+example : (cfgOf false 15).get "SkipBodyHashValidation" = false ∧
+    (cfgOf false 15).get "SkipBlockLimitsValidation" = true ∧
+    (cfgOf true 0).get "SkipBodyHashValidation" = true ∧
+    skipped "allegra" (cfgOf false 15) = false := by decide
+
 /-- Full statement of C34 over the model (all layouts). Proved below (`C34_holds`) from the
     theorems above; what stays outside is the correspondence model ↔ code (run on every check)
     and the hypotheses on the primitives. -/
